@@ -41,7 +41,7 @@ def block_seeds():
             continue
         m = json.load(open(mp))
         res = "; ".join(f"{r['check']}: " + ("**caught** (" + (r.get("what") or "").replace("|", "/")[:90] + ")" if r["exit"] == 1 else ("missed" if r["exit"] == 0 else "error")) for r in m.get("ran", []))
-        out.append(f"| {m['id']} | {', '.join(m.get('properties', [])[:1])} | {m.get('needs', '')[:160]} | {res} |")
+        out.append(f"| {m['id']}: {m.get('change', '')[:170]} | {m.get('breaks_property', '')} | {m.get('needs', '')[:170]} | {res} |")
     return "\n".join(out)
 
 blocks = {"theorems": block_theorems(), "findings": block_findings(), "seeds": block_seeds()}
